@@ -138,9 +138,89 @@ func init() {
 			c.ParallelFor(len(cases), func(i int) {
 				c.Check(cases[i], cases[i].L > 0 || cases[i].R > 0, c14Run(cases[i]))
 			})
+			// every per-channel length 0..70000 (windows of one long root): the view's shape methods
+			var shapeN int64
+			var chans []int
+			for C := 1; C <= 9; C++ {
+				chans = append(chans, C)
+			}
+			chans = append(chans, 17, 65)
+			c.ParallelFor(len(chans), func(i int) {
+				C := chans[i]
+				kmax := 70000
+				if C > 9 {
+					kmax = 9000
+				}
+				root := dyn.Alloc(dyn.Int8, al(C, kmax, kmax))
+				var n int64
+				for L := 0; L <= kmax; L++ {
+					w := root.Slice(0, L)
+					ch := w.Channel(C - 1)
+					n++
+					if ch.Length() != L || ch.Capacity() != kmax || ch.Channels() != 1 || w.Length() != L {
+						cs := c14Case{Type: "int8", C: C, P: kmax, S: 0, L: L, Chan: C - 1}
+						c.Fail(cs, core.Failf("Channel/shape", "Alloc[int8](C=%d,L=K=%d).Slice(0,%d).Channel(%d): Length() = %d (parent %d), Capacity() = %d (parent %d), Channels() = %d", C, kmax, L, C-1, ch.Length(), w.Length(), ch.Capacity(), w.Capacity(), ch.Channels()))
+						break
+					}
+				}
+				c.Eval(n, n)
+				c.Add("shape_only_lengths", n)
+			})
+			_ = shapeN
+			// a view taken once and used after 1..700 appends to its parent (every step checked)
+			for _, t := range []int{dyn.Int8, dyn.Float64, dyn.Uint32} {
+				for _, C := range []int{1, 2, 3} {
+					for _, mode := range []string{"appendsample", "append"} {
+						cs := c14Case{Type: tn(t), C: C, P: 0, Chan: C - 1}
+						parent := dyn.Alloc(t, al(C, 1, 1000))
+						for q := 0; q < C; q++ {
+							parent.SetSample(q, dyn.Tok(t, int64(5+q)))
+						}
+						v := parent.Channel(C - 1)
+						one := dyn.Alloc(t, al(C, 1, 1))
+						var steps int64
+						for k := 1; k <= 700; k++ {
+							if mode == "appendsample" {
+								parent.AppendSample(dyn.Tok(t, tk(int64(k))))
+							} else {
+								for q := 0; q < C; q++ {
+									one.SetSample(q, dyn.Tok(t, tk(int64(k+q))))
+								}
+								parent.Append(one)
+							}
+							steps++
+							bad := ""
+							if v.Length() != parent.Length() || v.Capacity() != parent.Capacity() {
+								bad = fmt.Sprintf("view reports Length %d Capacity %d, parent %d / %d", v.Length(), v.Capacity(), parent.Length(), parent.Capacity())
+							} else if full := parent.Len() / C; full > 0 {
+								i := full - 1
+								pos := C*i + C - 1
+								if pn, msg := dyn.Try(func() {
+									if g, w := v.Sample(i), parent.Sample(pos); g != w {
+										bad = fmt.Sprintf("view Sample(%d) = %v, parent sample %d = %v", i, g, pos, w)
+									}
+									x := dyn.Tok(t, tk(int64(k+50)))
+									v.SetSample(i, x)
+									if g := parent.Sample(pos); g != x {
+										bad = fmt.Sprintf("SetSample(%d) through the view is not seen in the parent (position %d reads %v, wrote %v)", i, pos, g, x)
+									}
+								}); pn {
+									bad = "panicked: " + msg
+								}
+							}
+							if bad != "" {
+								c.Fail(cs, core.Failf("Channel/stale-view", "Alloc[%s](C=%d,L=1,K=1000); v := Channel(%d); then %d x %s on the parent: %s", tn(t), C, C-1, k, mode, bad))
+								break
+							}
+						}
+						c.Eval(steps, steps)
+						c.Add("view_after_appends_steps", steps)
+					}
+				}
+			}
 			c.Sample(cases[100])
 			c.Sample(cases[len(cases)-1])
-			c.Set("rule", "13 element types x C in 1..8 x parent = whole buffer of 0..3 frames or window [S,S+L) (S in 0..2, L in 0..3, with and without a spare frame after it, and with 1..C-1 samples appended into that spare frame: partly filled last frame) x every channel c; plus 9, 17 and 65 channels and 1100-frame windows for 3 types; inside a case every index i < Length is read, its BufferIndex taken, written with a fresh token (whole storage diffed) and read back; non-trivial = Length > 0; cases distinct by construction")
+			c.Set("rule", "13 element types x C in 1..8 x parent = whole buffer of 0..3 frames or window [S,S+L) (S in 0..2, L in 0..3, with and without a spare frame after it, and with 1..C-1 samples appended into that spare frame: partly filled last frame) x every channel c; plus 9, 17 and 65 channels and 1100-frame windows for 3 types; the view's shape methods for every per-channel length 0..70000 (1-9 channels; 0..9000 for 17 and 65); a view taken once and used after each of 1..700 appends to its parent; inside a case every index i < Length is read, its BufferIndex taken, written with a fresh token (whole storage diffed) and read back; non-trivial = Length > 0; cases distinct by construction")
 			c.Assume("windows are taken with Slice (C02)")
 		},
 		RunCase: func(c *core.Ctx, raw json.RawMessage) []F { return c14Run(decode[c14Case](raw)) },
